@@ -95,23 +95,21 @@ impl core::fmt::Display for MetadataV3 {
 
 impl serde::Serialize for MetadataV3 {
     fn serialize<S: serde::Serializer>(&self, s: S) -> Result<S::Ok, S::Error> {
-        if let Some(configuration) = &self.configuration {
-            if configuration.is_empty() {
-                let mut s = s.serialize_map(Some(1))?;
-                s.serialize_entry("name", &self.name)?;
-                s.end()
-            } else {
-                let mut s = s.serialize_map(Some(if self.must_understand { 2 } else { 3 }))?;
-                s.serialize_entry("name", &self.name)?;
-                s.serialize_entry("configuration", configuration)?;
-                if !self.must_understand {
-                    s.serialize_entry("must_understand", &false)?;
-                }
-                s.end()
-            }
-        } else {
-            s.serialize_str(self.name.as_str())
+        // What is written is read back as the same metadata (and so serialises to the same text again):
+        // `"must_understand": false` is never dropped and an empty configuration stays a configuration
+        if self.configuration.is_none() && self.must_understand {
+            return s.serialize_str(self.name.as_str());
         }
+        let len = 1 + usize::from(self.configuration.is_some()) + usize::from(!self.must_understand);
+        let mut s = s.serialize_map(Some(len))?;
+        s.serialize_entry("name", &self.name)?;
+        if let Some(configuration) = &self.configuration {
+            s.serialize_entry("configuration", configuration)?;
+        }
+        if !self.must_understand {
+            s.serialize_entry("must_understand", &false)?;
+        }
+        s.end()
     }
 }
 
